@@ -1,5 +1,6 @@
 #!/usr/bin/env python3
-"""Apply every kept seeded patch to /repo in turn, run the property's quick check, undo the patch."""
+"""Apply every kept seeded patch to /repo in turn, run the property's quick check, undo the patch.
+Writes seeded/now.json (which rules report which seed today) and, with --readme, regenerates the table in seeded/README.md."""
 import json
 import subprocess
 import sys
@@ -7,6 +8,7 @@ from pathlib import Path
 
 VERIF = Path(__file__).resolve().parent.parent
 bad = 0
+now = {}
 assert subprocess.run("git -C /repo status --porcelain", shell=True, capture_output=True, text=True).stdout.strip() == "", "/repo not clean"
 for d in sorted((VERIF / "seeded").glob("C*_*")):
     meta = json.load(open(d / "meta.json"))
@@ -18,9 +20,27 @@ for d in sorted((VERIF / "seeded").glob("C*_*")):
             p = subprocess.run(f"./check {c} --no-evidence --evidence-dir /tmp/seed_ev", shell=True, cwd=VERIF, capture_output=True, text=True)
             if p.returncode == 1 and "VIOLATION" in p.stdout:
                 hit.append(c)
+            rules = sorted({l.split("violated ")[1].split(" at ")[0] for l in p.stdout.splitlines() if " violated " in l})
+            now.setdefault(meta["id"], {"exit": {}, "rules": []})
+            now[meta["id"]]["exit"][c] = p.returncode
+            now[meta["id"]]["rules"] += rules
     finally:
         subprocess.run("git -C /repo checkout -- .", shell=True, check=True)
         subprocess.run("rm -rf /tmp/seed_ev", shell=True)
     print(f"{meta['id']}: {'reported by ' + ','.join(hit) if hit else 'NOT REPORTED'}")
     bad += 0 if hit else 1
+(VERIF / "seeded" / "now.json").write_text(json.dumps(now, indent=1, sort_keys=True) + "\n")
+if "--readme" in sys.argv:
+    readme = VERIF / "seeded" / "README.md"
+    text = readme.read_text()
+    head = "| seed | property | round | reported at first run | rules reporting it now |"
+    i = text.index(head)
+    j = text.index("\n\n", i)
+    rows = [head, "|---|---|---|---|---|"]
+    for d in sorted((VERIF / "seeded").glob("C*_*")):
+        meta = json.load(open(d / "meta.json"))
+        rnd = {"a": 1, "b": 1, "c": 2, "d": 2, "e": 3, "f": 3}[meta["id"][-1]]
+        first = meta.get("first_run_reported", meta.get("caught"))
+        rows.append(f"| {meta['id']} | {meta['property']} | {rnd} | {'yes' if first else 'no'} | {', '.join(now[meta['id']]['rules']) or 'not reported (' + meta.get('not_reported_reason', '?') + ')'} |")
+    readme.write_text(text[:i] + "\n".join(rows) + text[j:])
 sys.exit(1 if bad else 0)
